@@ -874,6 +874,26 @@ def _first_of_generator(stmts, repo, f, new_funcs, resolve_helper):
     return out
 
 
+def _is_local_procedure(fnode, hnode):
+    """hnode is a `def` sitting directly in fnode's body, bound once (the name is not assigned anywhere else), with constant defaults
+    and no decorators: calling it runs its body in fnode's own scope of free variables, so a call can be spliced like a helper's"""
+    if not any(hnode is st for st in fnode.body) or hnode.decorator_list:
+        return False
+    a = hnode.args
+    if any(not isinstance(d, ast.Constant) for d in list(a.defaults) + [d for d in a.kw_defaults if d is not None]):
+        return False
+    binds = 0
+    for x in ast.walk(fnode):
+        if isinstance(x, (ast.FunctionDef, ast.AsyncFunctionDef, ast.ClassDef)) and x.name == hnode.name:
+            binds += 1
+        elif isinstance(x, ast.Name) and x.id == hnode.name and isinstance(x.ctx, (ast.Store, ast.Del)):
+            binds += 1
+    if binds != 1:
+        return False
+    # names assigned in the closure are its own locals (no nonlocal: checked by splicable); nested closures inside it are left alone
+    return not any(isinstance(x, (ast.FunctionDef, ast.Lambda, ast.ClassDef)) for st in hnode.body for x in ast.walk(st))
+
+
 def inline_new_helpers(repo, new_funcs, resolve_helper, bind_args, max_rounds=2):
     """transform repo.funcs' ASTs in place; returns {caller qname: [helper qnames spliced]}"""
     report = {}
@@ -987,7 +1007,8 @@ def inline_new_helpers(repo, new_funcs, resolve_helper, bind_args, max_rounds=2)
                                 continue
                     if call is not None:
                         h, skip = resolve_helper(repo, f, call)
-                        if h is not None and h.qname in new_funcs and h.node is not f.node and splicable(h):
+                        local = h is not None and _is_local_procedure(f.node, h.node)
+                        if h is not None and (h.qname in new_funcs or local) and h.node is not f.node and splicable(h):
                             b = bind_args(h, skip, call)
                             b = _bind_receiver(h, skip, call, b, f)
                             if b is not None:
